@@ -98,8 +98,9 @@ pub fn check_case(c: &Case, rep: &mut Report) {
     // one case in four runs without TLS, on a transport that takes only a few bytes per write call once the session
     // is active (the submissions then go to the layer below RdpClient, whose button mapping is reproduced here)
     let short_writes = c.gen[1] % 4 == 1;
+    let plain = short_writes || c.gen[1] % 4 == 3;
     let opened = mon::guarded(|| -> Result<session::Session, String> {
-        let mut s = if short_writes { session::open_plain(profile.clone(), false)? } else { session::open_real(profile.clone(), false)? };
+        let mut s = if plain { session::open_plain(profile.clone(), false)? } else { session::open_real(profile.clone(), false)? };
         s.activate()?;
         Ok(s)
     });
@@ -120,6 +121,17 @@ pub fn check_case(c: &Case, rep: &mut Report) {
         }
     };
     // one case in four: the transport takes only a few bytes per write call from now on
+    // another case in four runs without TLS on a transport that refuses ONE write call (nothing consumed, an error
+    // the application survives): that event must put nothing on the wire, now or later, and the others go out exactly
+    let refusal = c.gen[1] % 4 == 3;
+    let mut refuse_at_op = usize::MAX;
+    if refusal {
+        let n_inputs = c.ops.iter().filter(|o| matches!(o, Op::Pointer { .. } | Op::Key { .. })).count();
+        if n_inputs > 0 {
+            refuse_at_op = (c.gen[1] / 4) as usize % n_inputs;
+        }
+    }
+    let mut input_no = 0usize;
     if short_writes {
         let chunk = [1usize, 16, 47, 5][(c.gen[1] / 4 % 4) as usize];
         s.server.with(|sv| sv.write_chunk = chunk);
@@ -141,7 +153,16 @@ pub fn check_case(c: &Case, rep: &mut Report) {
             }
             Op::ServerSlowPath => {
                 let p = s.profile.clone();
-                let b: B = if i % 2 == 0 { proto::set_error_info(&p, c.share_id, 3) } else { proto::synchronize(&p, c.share_id, p.user_id) };
+                // well-formed slow-path traffic that must leave an active session active
+                let b: B = match i % 7 {
+                    0 => proto::set_error_info(&p, c.share_id, 3),
+                    1 => proto::synchronize(&p, c.share_id, p.user_id),
+                    2 => proto::demand_active(&p, c.share_id),
+                    3 => proto::control(&p, c.share_id, 4, 0, 0),
+                    4 => proto::font_map(&p, c.share_id),
+                    5 => proto::other_data_pdu(&p, c.share_id, [0x26u8, 0x27, 0x02, 0x1B, 0x36][(i / 7) % 5], &[0u8; 12]),
+                    _ => proto::control(&p, c.share_id, 2, p.user_id, 0x03ea),
+                };
                 s.push_slow("slow", &b);
                 let _ = s.read_collect();
                 None
@@ -159,6 +180,15 @@ pub fn check_case(c: &Case, rep: &mut Report) {
                 continue;
             }
         };
+        let is_input = matches!(op, Op::Pointer { .. } | Op::Key { .. });
+        let refused_here = refusal && is_input && input_no == refuse_at_op;
+        if is_input {
+            input_no += 1;
+        }
+        if refused_here {
+            let kind = [std::io::ErrorKind::WouldBlock, std::io::ErrorKind::TimedOut, std::io::ErrorKind::Other][(c.gen[1] / 16 % 3) as usize];
+            s.server.with(|sv| sv.fail_write_once = Some((0, kind)));
+        }
         let res = match &mut s.client {
             crate::client::Client::Real(rc) => mon::guarded(|| rc.write(ev).map_err(|e| err_kind(&e))),
             crate::client::Client::Plain(p) => {
@@ -197,6 +227,17 @@ pub fn check_case(c: &Case, rep: &mut Report) {
             }
             if !newev.is_empty() {
                 viol.push(("C11/refused-kind-put-bytes-on-the-wire".into(), format!("op {}: {} frames written for an event kind that cannot be sent", i, newev.len())));
+            }
+            continue;
+        }
+        if refused_here {
+            // the transport refused this event: the write must report it and nothing of the event may ever be transmitted
+            rep.hist("transport-refused-one-event");
+            if res.is_ok() {
+                viol.push(("C11/refused-by-transport-but-reported-ok".into(), format!("op {} {:?}: the transport refused the write, write returned Ok", i, op)));
+            }
+            if !newev.is_empty() {
+                viol.push(("C11/refused-by-transport-yet-on-the-wire".into(), format!("op {} {:?}: {} frames reached the server", i, op, newev.len())));
             }
             continue;
         }
